@@ -63,6 +63,32 @@ func init() {
 				e.Violate("c07-truthiness", fmt.Sprintf("%s (%T): the contexts gave %q (%s), want %q", k, extra[k], o.Out, o.Class, want(!xfalsy[k])), map[string]interface{}{"tmpl": c.Tmpl, "observed": o})
 			}
 		}
+		// a name tested while it is unknown (falsy), then bound by each binding form, then unknown again
+		// once the binding scope has ended: every test sees the binding of that moment
+		{
+			const IF = "<%= if (q) { %>Y<% } else { %>N<% } %>"
+			for _, b := range [][2]string{
+				{"<% let q = 1 %>" + IF, "Y"}, {"<%= for (q) in [1, 2] { %>" + IF + "<% } %>" + IF, "YYN"}, {"<%= for (k, q) in {\"a\": 1} { %>" + IF + "<% } %>" + IF, "YN"},
+				{"<%= for (q) in range(1, 2) { %>" + IF + "<% } %>" + IF, "YYN"}, {"<%= for (q) in until(2) { %>" + IF + "<% } %>" + IF, "YYN"}, {"<%= for (q) in between(0, 3) { %>" + IF + "<% } %>" + IF, "YYN"},
+				{"<%= for (q) in groupBy(1, [1, 2]) { %>" + IF + "<% } %>" + IF, "YN"}, {"<%= for (i, q) in [true] { %>" + IF + "<% } %>" + IF, "YN"},
+				{"<% let h = fn(q) { %>" + IF + "<% } %><%= h(1) %>" + IF, "YN"}, {"<% let h = fn() { let q = 2 %>" + IF + "<% } %><%= h() %>" + IF, "YN"},
+				{"<%= partial(\"probe\", {q: 1}) %>" + IF, "YN"}, {"<% contentFor(\"c\") { %>" + IF + "<% } %><%= contentOf(\"c\", {q: 1}) %>" + IF + "<%= contentOf(\"c\") %>", "YNN"},
+				{"<%= blkctx({q: 1}) { %>" + IF + "<% } %>" + IF, "YN"}, {"<%= for (z) in [1] { %><% let q = 1 %>" + IF + "<% } %>" + IF, "YN"},
+				{"<%= for (q) in [false, 1, nil, 2] { %>" + IF + "<% } %>", "NYNY"},
+			} {
+				for _, probe := range []string{IF, "<%= q == nil %>|", "<% if (!q) { %>u<% } %>", "<%= for (z) in [1] { %>" + IF + "<% } %>", "<% let pf = fn() { %>" + IF + "<% } %><%= pf() %>"} {
+					pw := map[string]string{IF: "N", "<%= q == nil %>|": "true|", "<% if (!q) { %>u<% } %>": ""}[probe]
+					if strings.Contains(probe, "[1]") || strings.Contains(probe, "pf()") {
+						pw = "N"
+					}
+					c := RCase{Tmpl: probe + b[0], Binds: []Bind{{"blkctx", vGo(105)}}, Parts: map[string]string{"probe": IF}}
+					o := e.addRenderCase("probe-then-bind", c)
+					if o.Class != "OK" || o.Out != pw+b[1] {
+						e.Violate("c07-truthiness", fmt.Sprintf("%s: rendered %q (%s %s), want %q", c.Tmpl, o.Out, o.Class, firstLine(o.Msg), pw+b[1]), map[string]interface{}{"case": c, "observed": o})
+					}
+				}
+			}
+		}
 		// chains
 		wraps := []string{"@", "<%= for (z) in [1] { %>@<% } %>", "<% let w = fn() { %>@<% } %><%= w() %>", "<%= blk() { %>@<% } %>", "<%= if (true) { %>@<% } %>",
 			// the chain nested in an else-if block and in the else block of an outer chain (whose own later branches must not run)
